@@ -532,6 +532,14 @@ async fn fair_suffix(w: &mut World, info: &mut RunInfo, st: &mut Stats, order: u
                         w.deliver(i, m, false).await;
                     }
                 }
+                // nodes are served one after the other: a leader that has just entered a view proposes before the
+                // nodes served later have caught up, so they may see the proposal of a view before its new-view messages
+                w.progress().await;
+                for j in w.correct() {
+                    if w.ready(j) {
+                        w.propose(j).await;
+                    }
+                }
             }
             w.progress().await;
             w.reap().await;
